@@ -30,7 +30,41 @@ UNITS['c16'] = {
     ],
 }
 
+UNITS['c15'] = {
+    'template': 'contracts/c15.vrs',
+    'mutants': [
+        ('end_uses_start', 'let end = position_to_utf8(text, r.end);', 'let end = position_to_utf8(text, r.start);', ['C15.change']),
+        ('full_text_ignored', '*text = change.text;', '', ['C15.change']),
+        ('close_removes_nothing', 'self.docs.remove(&loc);', '', ['C15.close']),
+        ('open_drops_text', 'self.docs.insert(loc.clone(), p.text_document.text);', 'self.docs.insert(loc.clone(), String::new());', ['C15.open']),
+    ],
+}
+
 PROPS = {
+    'C15': {
+        'units': ['c15', 'c16'],
+        'level': 'other',
+        'obligation_prefixes': ['C15.', 'C16.p2u.'],
+        'technique': 'Verus contracts on the real Workspace::{open,close,change} over an abstract document-store view, folded over arbitrary event histories; modular on the C16 contract of position_to_utf8',
+        'level_text': 'Deductive proof (Verus/Z3) of the document-store part of the property only: for every history of didOpen/didChange/didClose '
+                      'with protocol-conformant ranges, the server\'s text of each open document equals the client\'s (the real Workspace methods '
+                      'are verified and folded over an arbitrary event sequence). The rest of the statement (diagnostics freshness, request answers, '
+                      'process liveness outside change) is not decided, hence level other.',
+        'level_note': 'Trusted: std String::replace_range (byte splice; panics unless start<=end on char boundaries), HashMap::get_mut frame spec, '
+                      'Locator::from injective with a lawful Hash/Eq, position_to_utf8 by its C16 contract (proved in unit c16 and re-checked here). '
+                      'Assumed: ranges are protocol-conformant (start <= end, columns not inside a surrogate pair), documents < 2^30 chars. '
+                      'Not decided: oal-lsp.rs main_loop / dispatcher, is_stale/refresh discipline, read_file cache, handlers.',
+        'design_ref': 'DESIGN.md section 5, C15',
+        'explanation': 'Decides only the clause "the server\'s copy of each open document never drifts from the client\'s" (and that change() cannot panic on conformant input): '
+                       'open/close/change are verified against a client model defined with the LSP reference semantics of positions, then folded over every event history by a verified driver. '
+                       'Published diagnostics, request answers and liveness of the server loop are outside the reach of contracts on this code (crossbeam select!, lsp_server I/O).',
+        'assumptions': [
+            'protocol-conformant change ranges (start <= end lexicographically, columns not strictly inside a surrogate pair), evaluated against the client\'s text at the time of each change',
+            'documents shorter than 2^30 characters at every point of the history',
+            'the dispatcher calls Workspace::open/close/change once per notification, in arrival order (oal-lsp.rs, not verified)',
+        ],
+        'not_decided': ['freshness of published diagnostics', 'answers to definition/references/rename requests', 'is_stale/refresh discipline of main_loop', 'disk cache in Workspace::read_file', 'process liveness outside Workspace::change'],
+    },
     'C16': {
         'units': ['c16'],
         'kani': [
@@ -102,7 +136,6 @@ NOT_APPLICABLE = {
     'C07': 'contract not completed yet',
     'C10': 'contract not completed yet',
     'C11': 'contract not completed yet',
-    'C15': 'contract not completed yet',
 }
 
 
